@@ -62,6 +62,7 @@ class GaussianART(BaseART):
         assert params["alpha"] > 0.0
         assert isinstance(params["rho"], float)
         assert isinstance(params["sigma_init"], np.ndarray)
+        assert np.all(params["sigma_init"] > 0.0)
 
     def category_choice(
         self, i: np.ndarray, w: np.ndarray, params: dict
